@@ -94,7 +94,23 @@ func mutate(r *core.RNG, seed []byte) []byte {
 
 // hostileAddr returns SOCKS address bytes with junk ATYP, zero/over-long names, port 0 etc.
 func hostileAddr(r *core.RNG) []byte {
-	switch r.Intn(8) {
+	switch r.Intn(9) {
+	case 8:
+		// a well-formed host name at the upper end of what a name can be (labels of 63 bytes, 240..253 in total)
+		total := r.Pick(240, 242, 243, 244, 250, 253)
+		name := ""
+		for len(name) < total {
+			n := min(63, total-len(name))
+			if total-len(name)-n == 1 {
+				n--
+			}
+			if name != "" {
+				name += "."
+				n = min(n, total-len(name))
+			}
+			name += strings.Repeat(string(rune('a'+r.Intn(26))), n)
+		}
+		return append(append([]byte{3, byte(len(name))}, name...), byte(r.Intn(256)), byte(r.Intn(256)))
 	case 0:
 		return []byte{1, 10, 0, 0, 1, 0, 0} // port 0
 	case 1:
